@@ -251,14 +251,11 @@ def r3_tests_after_block(ctx, F):
                 m = w.calls_to('HasDiscoveries::matches')
                 okm = False
                 if len(m) == 1:
-                    recv = noref(w.trace(w.val(m[0].args[0]), ('Deref::deref',)))
-                    okm = recv.kind == 'arg' and recv.key == 1 and bool(recv.fields())
-                    if okm:
-                        par, uv = sp.upvar_source(int(recv.fields()[0][1:]))
-                        uv = noref(par.trace(uv, ('Clone::clone', 'Arc::clone')))
-                        src = par.call_at(uv.key) if uv.kind == 'call' else None
-                        okm = src is not None and src.is_('Arc::new') and \
-                            noref(par.val(src.args[0])).fields()[-1:] == ('.finish_when',)
+                    from common import capture_origin
+                    par, uv = capture_origin(F, w, w.val(m[0].args[0]))
+                    src = par.call_at(uv.key) if uv.kind == 'call' and not uv.projs else None
+                    okm = src is not None and src.is_('Arc::new') and \
+                        noref(par.val(src.args[0])).fields()[-1:] == ('.finish_when',)
                 ctx.check(okm, rule, 'finish-condition-is-configured-one', w,
                           good='matches() is called on the finish_when taken from the builder',
                           bad='%s worker: the finish condition evaluated is not options.finish_when' % strat)
